@@ -1610,8 +1610,15 @@ func (e *extraIndenter) WriteByte(b byte) error {
 	for range lineIndent {
 		e.bufWriter.WriteByte('\t')
 	}
-	e.bufWriter.WriteByte(tabwriter.Escape)
-	e.bufWriter.Write(trimmed)
+	if text := trimmed[:len(trimmed)-1]; bytes.ContainsAny(text, "\t\v\f") {
+		// Keep the tab writer from interpreting the rest of the line too.
+		e.bufWriter.Write(text)
+		e.bufWriter.WriteByte(tabwriter.Escape)
+		e.bufWriter.WriteByte('\n')
+	} else {
+		e.bufWriter.WriteByte(tabwriter.Escape)
+		e.bufWriter.Write(trimmed)
+	}
 	e.curLine = e.curLine[:0]
 	return nil
 }
